@@ -685,6 +685,9 @@ def stream_noadopt(seed, n, max_ops=24):
 
 
 def rand_script(rng, e, maxlen=3):
+    # `makeMut` inside a destructor script can make the teardown diverge (Lean: C03_teardown_can_diverge): user-code
+    # recursion that must never be generated
+    assert not any(t.startswith("makeMut") for t in SCRIPT_ACTS)
     acts = []
     for _ in range(rng.randint(1, maxlen)):
         t = rng.choice(SCRIPT_ACTS)
